@@ -18,6 +18,7 @@ if ! (cd "$SCRATCH/repo" && patch -p1 -s < "$PATCH"); then
 fi
 export VERIF_REPO="$SCRATCH/repo"
 FACTS="$("$VERIF/bin/extract.sh" "$VERIF_REPO" 2>"$SCRATCH/extract.err")" || { echo "BUILD-FAILED"; tail -15 "$SCRATCH/extract.err"; exit 0; }
+[ -n "${SHOW_FACTS:-}" ] && echo "FACTS $FACTS"
 for p in "${PROPS[@]}"; do
   out=$(python3 "$VERIF/rules/run.py" "$p" --facts "$FACTS" --no-evidence 2>&1); rc=$?
   keys=$(echo "$out" | grep -A1 '^VIOLATION' | grep 'rule ' | sed 's/^ *rule \([^ ]*\) *instance \(.*\)$/\1:\2/' | cut -c1-110 | tr '\n' '|')
